@@ -347,7 +347,7 @@ Section Ident.
       change (s_pstat X1 = [rs_pending rs]). rewrite (fe_pstat _ _ Fe). exact (oc_pstat _ _ _ HOC). }
     eexists. split; [exact Hrun|].
     refine (step_scan text bb _ tt s rs X1 _ CH_DEFAULT ty PNone true HOC F1 _ _ Hrun).
-    - destruct (oc_lines _ _ _ HOC) as [q Hq]. exists q. rewrite L1. exact Hq.
+    - apply L1; [exact ident_char_not_nl|]. apply lines_pos_start. exact (oc_lines _ _ _ HOC).
     - rewrite R1, Hr. symmetry. apply skipn_take_while.
   Qed.
 
